@@ -394,6 +394,10 @@ func fnHello(ctx *cmdContext, args map[string]any) (output respValue, err error)
 	if hasArgs {
 		ver, hasVer := helloArgs.mustGet("protover").(int64)
 		if hasVer {
+			if ver != 2 && ver != 3 {
+				output.data = respErrorString("NOPROTO unsupported protocol version")
+				return
+			}
 			ctx.cs.respVersion = int(ver)
 		}
 	}
